@@ -204,9 +204,12 @@ def gen_valid(rng, size=None):
                 if v['ty'] == 'i': ints.append(v['name'])
         if not ints:
             v = var(ns.new(), 'v', 'i'); vs.append(v); ints.append(v['name'])
-        # constants with initialisers
+        # constants with initialisers; sometimes a local constant that has the name of a (non-constant)
+        # configuration global which other POUs import as a non-constant external: legal shadowing
         if rng.random() < 0.4:
             v = var(ns.new(), 'v', 'i', rng.randint(0, 9), True); vs.append(v)
+        elif globals_ and not gconst and kind == 'U' and rng.random() < 0.7:
+            vs.append(var(globals_[0]['name'], 'v', 'i', rng.randint(0, 9), True))
         # enumeration typed locals (always initialised: see Analyze.lean stage 3)
         if rng.random() < 0.6:
             t, vals = rng.choice(enums)
@@ -267,6 +270,13 @@ def gen_valid(rng, size=None):
     tasks = [ns.new() for _ in range(rng.randint(1, 2))]
     insts = [(ns.new(), rng.choice(tasks + [None]), rng.choice(progs)) for _ in range(rng.randint(1, 2))]
     decls.append(('C', ns.new(), globals_, tasks, insts))
+    # legal shadowing: a local CONSTANT in one POU with the name of a non-constant global that another POU
+    # imports as a non-constant external (the external rule is about constant *globals* only)
+    if globals_ and not gconst and rng.random() < 0.5:
+        g = globals_[0]['name']
+        if any(v['name'] == g and v['cls'] == 'e' for d in decls if d[0] in 'FP' for v in d[2]):
+            n = ns.new(); a = ns.new()
+            decls.append(('U', n, [var(a, 'i', 'i'), var(g, 'v', 'i', 3, True)], [('a', n, [a, g])]))
     return decls, ns
 
 
